@@ -172,7 +172,10 @@ def gen_tree(rng, kind='D', with_disp=False, maxdepth=3):
             used.add(name)
             m = {'exp': _mark(rng, 0.6)}
             if rng.random() < 0.12:
-                m['alias'] = [rng.choice(['al', 'a.b', 'x.y', 'al.ias'])]
+                al = rng.choice(['al', 'a.b', 'x.y', 'al.ias'])
+                if al.replace('.', '_') not in used:
+                    used.add(al.replace('.', '_'))
+                    m['alias'] = [al]
             nd['meth'].append([name, m])
         if rng.random() < 0.25:
             name = rng.choice(NAMES + ['index', 'default'])
@@ -321,6 +324,20 @@ def ref_candidates(root, path_info):
     return []
 
 
+def expose_oracle(built):
+    """`cherrypy.expose` sets the mark, and registers every alias (dots -> underscores) for the same callable."""
+    bad = []
+    for node, name, aliases, f, expect_true in built.exposed_by_decorator:
+        if expect_true and getattr(f, 'exposed', None) is not True:
+            bad.append(('cherrypy.expose did not set exposed=True on %d.%s (aliases %s)' % (node, name, aliases),
+                        'expose_mark'))
+        for a in aliases:
+            if built.classes[node].__dict__.get(a.replace('.', '_')) is not f:
+                bad.append(('cherrypy.expose(alias=%r) on %d.%s did not register attribute %r'
+                            % (a, node, name, a.replace('.', '_')), 'expose_alias'))
+    return bad
+
+
 def _pid_of(o):
     import types
     p = getattr(o, '_pid', None)
@@ -337,6 +354,9 @@ def oracle(built, case, obs):
     """List of (what, signature) property failures on this observation."""
     bad = []
     spec, kind = case['tree'], case['kind']
+    if obs.get('hang'):
+        return [('the request for %r did not produce an answer (dispatcher does not terminate)' % case['path'],
+                 'no_answer')]
     has_disp = any(nd.get('disp') is not None for nd in spec['nodes'])
     pi = obs['path_info']
     ran = obs['ran']
@@ -463,7 +483,8 @@ def run_tree(spec, kind, reqs, purity=False):
         again = [runner.get(p, m) for p, m in reversed(reqs)][::-1]
     seen = [o['path_info'] or p for o, p in zip(obs, paths)]
     maxsegs = max([len([s for s in p.split('/') if s]) for p in seen] + [0])
-    view = T.View(built, T.alphabet_for(seen, [m for p, m in reqs]), maxsegs + 3)
+    added = [a for nd in spec['nodes'] if nd.get('disp') for a in nd['disp'].get('add', [])]
+    view = T.View(built, T.alphabet_for(seen, [m for p, m in reqs], extra=added), maxsegs + 4)
     root, na, nodes = view.fields()
     lines = []
     for o, (p, m) in zip(obs, reqs):
@@ -473,7 +494,10 @@ def run_tree(spec, kind, reqs, purity=False):
 
 
 def strip_obs(o):
-    return {k: o[k] for k in ('status', 'ran', 'allow', 'path_info')}
+    d = {k: o[k] for k in ('status', 'ran', 'allow', 'path_info')}
+    if o.get('hang'):
+        d['hang'] = True
+    return d
 
 
 def check_batch(ctx, batch, compare_model=True):
@@ -482,6 +506,10 @@ def check_batch(ctx, batch, compare_model=True):
     for spec, kind, reqs, purity in batch:
         built, view, obs, lines, again = run_tree(spec, kind, reqs, purity)
         ndisp = sum(1 for nd in spec['nodes'] if nd.get('disp') is not None)
+        for what, sig in expose_oracle(built):
+            ctx.oracle_fail({'tree': spec, 'kind': kind, 'path': reqs[0][0], 'method': reqs[0][1]}, what, sig)
+        if built.exposed_by_decorator:
+            ctx.count('expose_decorator_checked', len(built.exposed_by_decorator))
         for k, ((p, m), o) in enumerate(zip(reqs, obs)):
             case = {'tree': spec, 'kind': kind, 'path': p, 'method': m}
             nseg = len([s for s in (o['path_info'] or p).split('/') if s])
@@ -538,15 +566,12 @@ def gen_batch(rng, n_trees, reqs_per_tree=8):
 def enum_small():
     """Exhaustive small scope: a chain root -a-> n1 -b-> n2 where every node independently has
     exposed in {no, yes}, index in {absent, unexposed, exposed}, default in {absent, unexposed, exposed},
-    callable in {no, yes} (n1, n2 only) x all paths of <= 3 segments over {a, b, zz} with and without a
-    trailing slash."""
+    callable in {no, yes} (n1, n2 only) x 18 paths walking into / falling off the chain."""
     import itertools
     shapes = list(itertools.product([None, True], [0, 1, 2], [0, 1, 2], [False, True]))
-    paths = ['/']
-    for n in (1, 2, 3):
-        for segs in itertools.product(['a', 'b', 'zz'], repeat=n):
-            paths.append('/' + '/'.join(segs))
-    paths = paths + [p + '/' for p in paths if p != '/' and len(p) < 6]
+    # every way of walking into / falling off the chain (other names behave like 'zz' at that position)
+    paths = ['/', '/a', '/a/', '/a/b', '/a/b/', '/a/b/zz', '/a/b/zz/zz', '/a/b/index', '/a/zz', '/a/zz/b', '/a/a',
+             '/a/default', '/zz', '/zz/a/b', '/b', '/index', '/a/index/zz', '/a/b/default/zz/']
 
     def node(shape, kid):
         exp, idx, dfl, call = shape
@@ -634,7 +659,7 @@ def run(ctx):
         check_batch(ctx, [_case_batch(c)])
         ctx.count('corpus')
     if ctx.quick():
-        check_batch(ctx, gen_batch(ctx.rng, 330))
+        check_batch(ctx, gen_batch(ctx.rng, 900))
         return
     _WORKER_LEAN[0] = ctx.lean
     jobs = [(ctx.rng.randrange(1 << 30), 600, 'thorough') for _ in range(32)]
